@@ -1,8 +1,8 @@
 (** C17 -- external commands run only when expected, with the documented arguments and output handling.
     Statements only; proofs live in Proofs/C17Shapes.v and Proofs/C17Proofs.v (on Model/BashSem.v, the interpreter
     of the emitted bash skeleton, tied to real bash by T2; the specification is Spec/Invocations.v). *)
-From CG Require Import Base.Prelude Model.Dfa Model.Glob Model.BashSem Model.C17Witness Spec.Invocations.
-From CG Require Import Proofs.GlobFacts Proofs.SubwordFacts Proofs.C12Chain Proofs.C17Proofs Proofs.C17Shapes.
+From CG Require Import Base.Prelude Model.Dfa Model.Glob Model.BashSem Model.C17Witness Spec.Invocations Spec.InvocationsSub.
+From CG Require Import Proofs.GlobFacts Proofs.SubwordFacts Proofs.C12Proofs Proofs.C12Chain Proofs.C17Proofs Proofs.C17Shapes Proofs.C17Total Proofs.C17Pick Proofs.C17Sub.
 
 (** For ALL tables, environments and command lines: every invocation the script makes passes ("","") while a
     complete word is matched at top level, (typed prefix, "") at the cursor, and inside a word w a split of w --
@@ -44,6 +44,65 @@ Proof. exact filter_lines_repaired_spec. Qed.
 Check C17_repaired_candidates :
   forall output, command_lines Repaired output = spec_candidates output.
 Print Assumptions C17_repaired_candidates.
+
+(** /repo HEAD, WITH within-word expressions: for all tables whose within-word literal arrays are non-empty texts in
+    decreasing length (dfa.rs; checked on Rust's tables), every environment and every command line (printable prefix),
+    return code, COMPREPLY and the whole invocation log are what Spec/InvocationsSub.v prescribes.  Inside a word that
+    specification is declarative: at a point with [rest] to read, the LONGEST expected literal -- resp. candidate of an
+    expected command, run with ([rest], matched part), candidates = text before the first tab -- that is a non-empty
+    prefix of [rest] is consumed; when completing, the walk stops where [rest] is a proper prefix of an expected piece;
+    a complete word matches iff it is consumed ending in an accepting state; completion runs every command expected at
+    the point reached with ([rest], matched part) and offers matched part ++ candidate for the candidates extending
+    [rest].  (The script's ordered first-hit loops over the length-sorted literal array and the `sort`ed candidates are
+    shown equal to that choice: Proofs/C17Pick.v.) *)
+Theorem C17_repaired_subword_spec :
+  forall start tabs e ws p r,
+    wf_subwords tabs -> e_ignore_case e = false -> printable_str p = true ->
+    spec_run_sw start tabs e ws p = Ok r ->
+    run_from Repaired start tabs e ws p = Ok r.
+Proof. exact run_from_repaired_spec_sw. Qed.
+Check C17_repaired_subword_spec :
+  forall start tabs e ws p r,
+    wf_subwords tabs -> e_ignore_case e = false -> printable_str p = true ->
+    spec_run_sw start tabs e ws p = Ok r ->
+    run_from Repaired start tabs e ws p = Ok r.
+Print Assumptions C17_repaired_subword_spec.
+
+(** the building block: inside a word the interpreter IS the specification, round by round *)
+Theorem C17_repaired_within_word :
+  forall c tabs e T acc word fuel state ci log,
+    wf_sub T ->
+    sw_loop fuel Repaired c tabs e T acc word state ci log = spec_sw_loop fuel c tabs e T acc word state ci log.
+Proof. intros c tabs e T acc word fuel state ci log H. now apply sw_loop_spec. Qed.
+Check C17_repaired_within_word :
+  forall c tabs e T acc word fuel state ci log,
+    wf_sub T ->
+    sw_loop fuel Repaired c tabs e T acc word state ci log = spec_sw_loop fuel c tabs e T acc word state ci log.
+Print Assumptions C17_repaired_within_word.
+
+(** /repo HEAD always terminates: for ALL tables whose within-word literals are non-empty (the parser guarantees it),
+    every environment and every command line, the interpreter neither runs out of fuel (every round of the within-word
+    loop consumes at least one character: an empty candidate is never consumed) nor panics, and a result is a return
+    code 0 or 1.  ([Err] remains possible: it flags a query outside the modelled domain -- an extended glob in
+    COMP_WORDBREAKS stripping, a non-printable prefix given to printf %q, a command id without function.) *)
+Theorem C17_repaired_total :
+  forall tabs e start ws p,
+    wf_subword_literals tabs ->
+    run_from Repaired start tabs e ws p <> OutOfFuel
+    /\ (forall site, run_from Repaired start tabs e ws p <> Panic site)
+    /\ (forall r, run_from Repaired start tabs e ws p = Ok r -> r_rc r = 0 \/ r_rc r = 1).
+Proof.
+  intros tabs e start ws p H.
+  destruct (run_from_repaired_total tabs e H start ws p) as [F R].
+  destruct (run_from Repaired start tabs e ws p); cbn in F; repeat split; try discriminate; try contradiction; exact R.
+Qed.
+Check C17_repaired_total :
+  forall tabs e start ws p,
+    wf_subword_literals tabs ->
+    run_from Repaired start tabs e ws p <> OutOfFuel
+    /\ (forall site, run_from Repaired start tabs e ws p <> Panic site)
+    /\ (forall r, run_from Repaired start tabs e ws p = Ok r -> r_rc r = 0 \/ r_rc r = 1).
+Print Assumptions C17_repaired_total.
 
 (** The templates before the repair ([Pinned], [Fixed]): the same equality only on the clean top-level domain -- no within-word expressions, every command prints lines without blanks that
     are not option words of echo, glob-free complete words, printable prefix, and the situation of the last-word
@@ -181,6 +240,26 @@ Check C17_repaired_witnesses :
   /\ run_from Repaired 0 w2 (env2 ("x" ++ lf ++ lf ++ "xy" ++ lf)) ["p:q"] "" = Ok (mkresult 1 [] [(0, "q", "p:")])
   /\ run_from Repaired 0 w2 (env2 ("x" ++ lf ++ "xy" ++ lf)) ["p:x"] "" = Ok (mkresult 0 ["next "] [(0, "x", "p:")]).
 Print Assumptions C17_repaired_witnesses.
+
+(** literal prefix + command tail (w2: cmd p:({{{c1}}})... next;): the specification computes the documented calls --
+    (rest, matched part) = ("xy", "p:") then ("y", "p:x") while matching p:xy with candidates x, xy, y; ("x", "p:") twice
+    (walk, then completion) for the word p:x under the cursor -- and the hypotheses of the theorem hold for w2. *)
+Example ex_C17_subword_inhabited :
+  let e := env2 ("x" ++ lf ++ "xy" ++ lf ++ "q" ++ String (ch 9) "descr" ++ lf) in
+  wf_subwords w2
+  /\ spec_run_sw 0 w2 e ["p:xy"] "" = Ok (mkresult 0 ["next "] [(0, "xy", "p:")])
+  /\ spec_run_sw 0 w2 e ["p:xq"] "" = Ok (mkresult 0 ["next "] [(0, "xq", "p:"); (0, "q", "p:x")])
+  /\ spec_run_sw 0 w2 e ["p:z"] "" = Ok (mkresult 1 [] [(0, "z", "p:")])
+  /\ spec_run_sw 0 w2 e [] "p:x" = Ok (mkresult 0 ["x"; "xy"] [(0, "x", "p:"); (0, "x", "p:")])
+  /\ spec_run_sw 0 w2 e [] "p:" = Ok (mkresult 0 ["x"; "xy"; "q"] [(0, "", "p:")]).
+Proof.
+  cbv zeta. split.
+  - intros pool sid T H. cbn in H. destruct H as [H|[]]. injection H as _ _ <-. split.
+    + intros id l Hin. cbn in Hin. destruct Hin as [Hin|[]]. injection Hin as _ <-. discriminate.
+    + cbn. split; [intros id l' []|exact I].
+  - vm_compute. repeat split; reflexivity.
+Qed.
+Print Assumptions ex_C17_subword_inhabited.
 
 (** Non-vacuity of C17_toplevel_spec: w1 with clean outputs is in the domain, the escape does not arise for the
     line [cb] + prefix "", and both sides compute the same non-trivial result. *)
